@@ -195,6 +195,13 @@ func c17() {
 	for n := 1; n <= run.N(90, 400); n++ {
 		hists = append(hists, hist{kind: "crash-on-entering-nth-write-or-rename", k: n})
 	}
+	// resource limits: the profiler's file size limit stops the cache write (SIGXFSZ or EFBIG) at K bytes; few descriptors
+	for _, k := range []int{1, 64, 100, 4096, 10000, 65536, 100000, 200000, total - 10, total + 10} {
+		hists = append(hists, hist{kind: "file-size-limit", k: k})
+	}
+	for _, k := range []int{3, 4, 5, 6, 7, 8, 9, 10, 12, 16} {
+		hists = append(hists, hist{kind: "descriptor-limit", k: k})
+	}
 	// a second run that overlaps a first one which is still writing: it must not reuse what is there so far
 	for _, k := range []int{0, 100, 4096, 8192, 20000, total / 2, total - 100} {
 		hists = append(hists, hist{kind: "overlapping-run", k: k})
@@ -316,6 +323,10 @@ func c17() {
 			step(vlib.ToolRun{Argv: argv(target), FakeMode: "emit", Listing: fx.listA, Strace: []string{"-f", "-e", "trace=" + set, "-e", fmt.Sprintf("inject=%s:signal=KILL:when=%d", set, h.k)}},
 				fmt.Sprintf("run 1: SIGKILL on entering the %d-th write/rename/unlink/fsync of a thread", h.k))
 			run.Count("syscall_granular_crash_points", 1)
+		case "file-size-limit":
+			step(vlib.ToolRun{Argv: append([]string{"/usr/bin/prlimit", fmt.Sprintf("--fsize=%d", h.k)}, argv(target)...), FakeMode: "emit", Listing: fx.listA}, fmt.Sprintf("run 1: RLIMIT_FSIZE=%d bytes", h.k))
+		case "descriptor-limit":
+			step(vlib.ToolRun{Argv: append([]string{"/usr/bin/prlimit", fmt.Sprintf("--nofile=%d", h.k)}, argv(target)...), FakeMode: "emit", Listing: fx.listA}, fmt.Sprintf("run 1: RLIMIT_NOFILE=%d", h.k))
 		case "enospc-at-write":
 			step(vlib.ToolRun{Argv: argv(target), FakeMode: "emit", Listing: fx.listA, Strace: []string{"-e", "trace=write", "-e", fmt.Sprintf("inject=write:error=ENOSPC:when=%d+", h.k)}},
 				fmt.Sprintf("run 1: every write of the profiler from its #%d on fails with ENOSPC", h.k))
@@ -391,5 +402,5 @@ func c17() {
 		}
 	}
 	run.Finish(run.Counter("histories"), int64(len(distinct)),
-		"two- and three-run histories of the built seccomp-profiler in private mount namespaces (own ~/.seccomp-profiler): run 1 interrupted by SIGKILL after the scripted disassembler emitted k bytes (k swept over 0,1,63..65, every 4096-byte flush boundary +-1, end, PRNG), disassembler absent / exiting 1 or killed after k bytes / after everything, SIGKILL on entering the n-th write/rename/unlink of a thread (strace signal injection, n swept), ENOSPC on every write from the K-th on, EIO while hashing, binary replaced, a second run overlapping a first one that is still writing; then a normal run whose profile must equal the cold-cache profile or fail; distinct = (kind, k/512) cells")
+		"two- and three-run histories of the built seccomp-profiler in private mount namespaces (own ~/.seccomp-profiler): run 1 interrupted by SIGKILL after the scripted disassembler emitted k bytes (k swept over 0,1,63..65, every 4096-byte flush boundary +-1, end, PRNG), disassembler absent / exiting 1 or killed after k bytes / after everything, SIGKILL on entering the n-th write/rename/unlink of a thread (strace signal injection, n swept), RLIMIT_FSIZE of K bytes and RLIMIT_NOFILE of 3..16, ENOSPC on every write from the K-th on, EIO while hashing, binary replaced, a second run overlapping a first one that is still writing; then a normal run whose profile must equal the cold-cache profile or fail; distinct = (kind, k/512) cells")
 }
